@@ -4,7 +4,7 @@ import json
 props=[json.loads(l) for l in open('/verif/properties.jsonl')]
 MC="model_checking"
 CHECKS={
- "C01": dict(technique="TLA+ spec Bus.tla: exhaustive TLC (MCBus_c01) + TLC-generated behaviours replayed on the real bus + random executions, all recorded traces validated against BusTrace.tla",
+ "C01": dict(technique="TLA+ spec Bus.tla: exhaustive TLC (MCBus_c01) + TLC-generated behaviours replayed on the real bus + random and directed (re-entrant publish cascade) executions, all recorded traces validated against BusTrace.tla",
    text="TLC visits every reachable configuration of the bus model for one driver goroutine with re-entrant handler bodies (subscribe/unsubscribe/clear/clearall/publish/queries from inside handlers, once, async, filters, two types on one shard) and checks the delivery/registry invariants in each; the binding to the code is trace validation: every API call, API result, filter evaluation and handler invocation of TLC-generated and random executions of the real bus must be a behaviour of the specification.",
    note="Trusted: TLC, the Go recorder (events are appended under one mutex in real-time order), the mapping of handler closures to registration ids. Bounded model (MaxReg/MaxPub); conformance is sampling of executions, not a proof about the code.", ref="DESIGN.md 5/C01, 4.1"),
 }
